@@ -171,7 +171,7 @@ theorem ec_frame_roundtrip (H : Bytes → Bytes) (hH : ∀ x, (H x).length = 32)
 part — every content, every well-formed (d, p, stripe) — and nothing is healed. -/
 theorem ec_roundtrip (c : EC.Cfg) (code : EC.Code) (H : Bytes → Bytes) (wf : EC.WF c code H) (fix : EC.Fix) (b : Bytes) :
     EC.read c code H fix ((List.range c.n).map fun k => some (EC.shardStream c code H k b))
-      = .result ⟨b, false, List.replicate c.n none⟩ := EC.read_intact c code H wf fix b
+      = .result ⟨b, false, List.replicate c.n none, []⟩ := EC.read_intact c code H wf fix b
 
 /-! ## hypotheses about the external primitives, well-formed middlewares -/
 
